@@ -410,6 +410,17 @@ BOUNDARY = [
     "external Foo:\n  -- doc\n  [a: 1]\n",
     "struct Foo:\n  0 [+1] UInt x\n\n\n\n\n  # c\n\n\n  1 [+1] UInt y\n",
     "struct Foo:\n  let x = a ? b : c\n  let y = a == b && c != d || e < f\n  let z = $max(a, b,c) + $present(x.y.z)\n",
+    # comment lines (and blank lines) at every place a line can stand: below an `if` header, below a type
+    # header, below a field with a body, between attribute lines, before a dedent — in struct, bits,
+    # anonymous bits, enum
+    "struct Foo:\n  0 [+1] UInt a\n  if a == 1:\n    # below if\n\n    # second\n    1 [+1] UInt b\n      -- doc of b\n    2 [+1] UInt c\n",
+    "bits Foo:\n  0 [+1] Flag a\n  if a:  # on the if line\n    # below if\n    1 [+1] Flag b\n",
+    "struct Foo:\n  0 [+4] bits:\n    0 [+1] Flag a\n    if a:\n      # below if, anonymous bits\n      1 [+1] Flag b\n    # after\n",
+    "struct Foo:  # header\n  # below header\n\n  -- doc\n  # between doc and attribute\n  [a: 1]\n  # before field\n  0 [+1] UInt x  # on field\n    # below field\n    -- doc of x\n    # between\n    [b: 2]\n    # end of body\n  # end of struct\n# end of file\n",
+    "enum Foo:\n  # below header\n  AA = 1  # on value\n    # below value\n    -- doc\n  # between values\n\n\n  BB = 2\n",
+    # abbreviations on plain fields and on every inline type
+    "struct Foo:\n  0 [+1] UInt x (xx)\n  1 [+1] enum e (ee):\n    AA = 0\n  2 [+1] bits b (bb):\n    0 [+1] Flag f (ff)\n  3 [+2] struct s (ss):  # c\n    0 [+1] UInt q (qq)\n",
+    "bits Foo:\n  0 [+4] enum e (ee):\n    AA = 0\n  4 [+4] UInt y (yy)\n",
 ]
 
 # pinned inputs of the repaired findings (also in corpus/C11/): they must pass now
@@ -681,13 +692,15 @@ def sanity_ops(st, r, pairs):
         real = real_sanity(f, o)
         agree = spec_sanity(ft, ot)
         st.bump(st.stats, "sanity_" + real.split()[0])
-        if real.startswith("exception") or real.startswith("other") or (real == "ok") != agree:
+        bad = real.startswith("exception") or real.startswith("other") or (real == "ok") != agree
+        if bad:
+            st.bump(st.stats, "sanity_against_spec")
             if len(st.chk.violations) < st.max_viol:
                 st.chk.violation("input", {
                     "input": {"formatted": f, "original": o}, "observed": "sanity_check_format_result: " + real,
                     "expected": "[] iff the token streams agree up to newline runs and blanks around "
                                 "token texts (they %s); never an exception" % ("agree" if agree else "differ")})
-        ops.append(("SANITY %s %s" % (tok_arg(ft), tok_arg(ot)), real, (f, o)))
+        ops.append(("SANITY %s %s" % (tok_arg(ft), tok_arg(ot)), real, (f, o, bad)))
     return ops
 
 
@@ -721,8 +734,8 @@ def sanity_pairs(r, texts):
 def glued_pairs_check(st, model):
     """Separability obligation `C11_render_separable`.  The driver computes, from the regenerated
     grammar + handler table, every terminal pair some handler prints with nothing in between
-    (`gluedPairs`, Spec/Fmt.lean) and checks that each is in the audited list (`gluedOK`; the same
-    statement over the interned table is a kernel-checked theorem).  Here every computed pair is
+    (`gluedPairs`, Spec/Fmt.lean), checks that its fixpoint computations converged and that each
+    pair is in the audited list (`gluedOK`, compiled checker).  Here every computed pair is
     tried on the real tokenizer: texts of the two classes, juxtaposed, must tokenize back into
     exactly the two tokens — no unsplit pair."""
     chk = st.chk
@@ -794,12 +807,12 @@ def run(tier):
         chk.extra["table_obligation"] = ans
         if ans == "ok":
             chk.discharged += 1
-            chk.theorems.append({"theorem": "tableTyped formatters ∧ tableMatchesGrammar (compiled checker, op TABLE)",
+            chk.theorems.append({"theorem": "tableTyped formatters ∧ tableMatchesGrammar ∧ tableNormal formatters (compiled checker, op TABLE)",
                                  "axioms": ["Lean compiler"]})
         else:
             print("table obligations of C11 no longer hold: %s" % ans[:1500])
             if not search(chk):
-                chk.violation("theorem", {"theorem_or_correspondence": "tableTyped formatters / tableMatchesGrammar: " + ans,
+                chk.violation("theorem", {"theorem_or_correspondence": "tableTyped / tableMatchesGrammar / tableNormal: " + ans,
                                           "note": "regenerated production->handler table no longer satisfies the "
                                                   "hypothesis of C11_total / C11_tokens_preserved; search found no "
                                                   "failing input"}, found_input=False)
@@ -888,6 +901,8 @@ def run(tier):
         for (op, want, pair), ans in zip(sops, answers[len(st.model_ops):]):
             if ans != want:
                 dis += 1
+                if pair[2]:
+                    continue    # the real self-check is wrong on this pair: reported above with the input
                 if dis <= 5:
                     chk.violation("correspondence", {
                         "input": {"formatted": pair[0], "original": pair[1]}, "model": ans, "observed": want,
